@@ -150,6 +150,21 @@ Forms == {
   [name |-> "delete", toks |-> <<"DELETE", "FROM", "t", "WHERE", "a", "=", "1">>,
      tree |-> [T |-> "DeleteStatement", TableName |-> "t", Where |-> Bin(Id("a"), "=", IntLit("1"))]],
   [name |-> "delete-all", toks |-> <<"DELETE", "FROM", "t">>, tree |-> [T |-> "DeleteStatement", TableName |-> "t"]],
+  \* ---- JOIN ... USING: one column is stored as the identifier, several as a list ----
+  [name |-> "using-one", toks |-> S1t \o <<"JOIN", "u", "USING", "(", "k", ")">>,
+     tree |-> S1 @@ [Joins |-> <<[T |-> "JoinClause", Type |-> "INNER", Left |-> TRef("t"), Right |-> TRef("u"), Condition |-> Id("k")]>>]],
+  [name |-> "using-two-columns", toks |-> S1t \o <<"LEFT", "JOIN", "u", "USING", "(", "k", ",", "j", ")">>,
+     tree |-> S1 @@ [Joins |-> <<[T |-> "JoinClause", Type |-> "LEFT", Left |-> TRef("t"), Right |-> TRef("u"),
+                                   Condition |-> [T |-> "ListExpression", Values |-> <<Id("k"), Id("j")>>]]>>]],
+  [name |-> "using-two-joins", toks |-> S1t \o <<"JOIN", "u", "USING", "(", "x", ",", "y", ")", "JOIN", "v", "USING", "(", "z", ",", "w", ")">>,
+     tree |-> S1 @@ [Joins |-> <<[T |-> "JoinClause", Type |-> "INNER", Left |-> TRef("t"), Right |-> TRef("u"),
+                                   Condition |-> [T |-> "ListExpression", Values |-> <<Id("x"), Id("y")>>]],
+                                  [T |-> "JoinClause", Type |-> "INNER", Left |-> TRef("(t_with_1_joins)"), Right |-> TRef("v"),
+                                   Condition |-> [T |-> "ListExpression", Values |-> <<Id("z"), Id("w")>>]]>>]],
+  [name |-> "using-list-then-one", toks |-> S1t \o <<"JOIN", "u", "USING", "(", "x", ",", "y", ")", "JOIN", "v", "USING", "(", "z", ")">>,
+     tree |-> S1 @@ [Joins |-> <<[T |-> "JoinClause", Type |-> "INNER", Left |-> TRef("t"), Right |-> TRef("u"),
+                                   Condition |-> [T |-> "ListExpression", Values |-> <<Id("x"), Id("y")>>]],
+                                  [T |-> "JoinClause", Type |-> "INNER", Left |-> TRef("(t_with_1_joins)"), Right |-> TRef("v"), Condition |-> Id("z")]>>]],
   \* ---- MERGE and data definition ----
   [name |-> "merge", toks |-> <<"MERGE", "INTO", "t", "USING", "u", "ON", "t", ".", "a", "=", "u", ".", "a",
                                  "WHEN", "MATCHED", "THEN", "UPDATE", "SET", "b", "=", "u", ".", "b",
